@@ -24,7 +24,9 @@ func (r *DescribeGroupsResponse) decode(pd packetDecoder, version int16) (err er
 		return err
 	}
 
-	r.Groups = make([]*GroupDescription, n)
+	if n >= 0 {
+		r.Groups = make([]*GroupDescription, n)
+	}
 	for i := 0; i < n; i++ {
 		r.Groups[i] = new(GroupDescription)
 		if err := r.Groups[i].decode(pd); err != nil {
